@@ -237,8 +237,10 @@ func (s *ServerSession) doMsg(stream *Stream) error {
 	case base.RtmpTypeIdAudio:
 		fallthrough
 	case base.RtmpTypeIdVideo:
-		if s.sessionStat.BaseType() != base.SessionBaseTypePubStr {
+		// 只有publish成功后（上层已经注册了音视频数据的监听）才接收音视频数据
+		if s.sessionStat.BaseType() != base.SessionBaseTypePubStr || s.avObserver == nil {
 			err = nazaerrors.Wrap(base.ErrRtmpUnexpectedMsg)
+			break
 		}
 		s.avObserver.OnReadRtmpAvMsg(stream.toAvMsg())
 	default:
@@ -290,7 +292,7 @@ func (s *ServerSession) doUserControl(stream *Stream) error {
 	return nil
 }
 func (s *ServerSession) doDataMessageAmf0(stream *Stream) error {
-	if s.sessionStat.BaseType() != base.SessionBaseTypePubStr {
+	if s.sessionStat.BaseType() != base.SessionBaseTypePubStr || s.avObserver == nil {
 		return nazaerrors.Wrap(base.ErrRtmpUnexpectedMsg)
 	}
 
